@@ -6,7 +6,7 @@ from ..env import np, puan, pnd
 ID = "C19"
 RULE = ("Mode M: EVERY matrix [b|A] with 1..2 rows x 1..2 columns over {-1,0,1,2} (quick: 2x2 over {-1,0,1}; thorough adds 3x2 / 2x3 over {-1,0,1}) x EVERY points array of "
         "(the polyhedron OBJECT is reused from matrix to matrix by in-place assignment, plus a fresh object every 4th matrix) "
-        "ndim 1 (one point), ndim 2 (1..3 points), ndim 3 (1..2 groups x 1..2 points) over {-1,0,1}, handed over as C-ordered, Fortran-ordered and non-contiguous arrays in rotation, (over {0,1} where the product would exceed 100 arrays). plus a family of large-magnitude rows / points (16-bit values times big coefficients, constants beyond 2^24 and 2^31, slack -1/0/+1). oracle: direct A p >= b per point (int64); "
+        "ndim 1 (one point), ndim 2 (1..3 points), ndim 3 (1..2 groups x 1..2 points) over {-1,0,1} (plus every group / point containing -1 next to its hash-colliding twin with -2 instead), handed over as C-ordered, Fortran-ordered and non-contiguous arrays in rotation, (over {0,1} where the product would exceed 100 arrays). plus a family of large-magnitude rows / points (16-bit values times big coefficients, constants beyond 2^24 and 2^31, slack -1/0/+1). oracle: direct A p >= b per point (int64); "
         "ineqs_satisfied = all rows per point, separable = its negation, ineq_separate_points = per row 'some point of the group violates'; "
         "output shapes (), (n,), (g,n) resp. (r,), (r,), (g,r). non-trivial = distinct (matrix, points) with mixed verdicts")
 ASSUMPTIONS = ["points are integer arrays of the polyhedron's column count"]
@@ -35,6 +35,21 @@ def point_arrays(c, pv):
                 continue
             for combo in itertools.product(base, repeat=g * n):
                 out.append(("3d", np.array(combo, dtype=np.int64).reshape(g, n, c)))
+    # hash-colliding twins (hash(-1) == hash(-2) in CPython, so tuples that differ only in -1 / -2 collide): a group and its twin
+    # side by side in one stack, in both orders, and a point next to its twin in one matrix
+    for n in (1, 2):
+        if len(singles) ** n > 100:
+            continue
+        for combo in itertools.product(singles, repeat=n):
+            P = np.array(combo, dtype=np.int64)
+            if not (P == -1).any():
+                continue
+            T = np.where(P == -1, -2, P)
+            out.append(("3d", np.array([P, T])))
+            out.append(("3d", np.array([T, P])))
+            if n == 1:
+                out.append(("2d", np.array([P[0], T[0]])))
+                out.append(("2d", np.array([T[0], P[0], T[0]])))
     return out
 
 
